@@ -184,7 +184,10 @@ def r18_3(ctx):
 
 
 def rules(ctx):
-    return [r18_1, r18_2, r18_3]
+    from ..engine import only
+    from . import c16
+    return [r18_1, r18_2, r18_3,
+            only(c16.r16_1, lambda k: k.startswith("props_extractor"), "the written default is taken the same way for every form of the setup function / its first parameter")]
 
 
 EXPLANATION = (
